@@ -255,7 +255,7 @@ def r1b(repo, chk, sites):
         if ok:
             cap = get_kw(sf[0], "capacity", 1)
             a0 = norm(gf[0].args[0]) if gf[0].args else ""
-            ok = cap is not None and a0 == f"builder.remaining_flight_space - {norm(cap)}" and (not isinstance(cap, ast.Name) or all(w.before(_stmt_of(d), gf[0]) for d in w.local_defs(cap.id)))
+            ok = cap is not None and a0 == f"builder.remaining_flight_space - {norm(cap)}" and (not isinstance(cap, ast.Name) or all(w.before(st, gf[0]) for st, t, v in w.assigns(chain=cap.id)))
             # the frame is only started when the getter returned one
             ok = ok and ("frame is not None", True) in w.guard_atoms(sf[0])
         chk.ob("R1b", f"{wname}: the getter is asked for at most remaining_flight_space - capacity bytes, capacity being what start_frame reserves", ok, "the room test of the getter and the capacity of start_frame disagree: a frame can be consumed that start_frame refuses", w.loc(w.node))
